@@ -139,6 +139,16 @@ pub fn run(ctx: &Ctx, out: &mut CaseOut) {
             }
         };
         out.count(&format!("{}:logged-program-lowers", kind));
+        // F11 evidence for a solve of `g` on the *original* program (fresh solver, no wrapper)
+        let orig_stale = |g: &str| -> bool {
+            with_program(&l, || match lower_goal_text(&l, g) {
+                Ok(goal) => {
+                    use chalk_solve::ext::GoalExt;
+                    crate::common::fresh_slg_stale(&l, &goal.into_peeled_goal(chalk_integration::interner::ChalkIr))
+                }
+                Err(_) => false,
+            })
+        };
         let mut s2 = choice.into_solver();
         with_program(&l2, || {
             for (g, a) in goals.iter().zip(&answers) {
@@ -185,6 +195,13 @@ pub fn run(ctx: &Ctx, out: &mut CaseOut) {
                                 Some("logging:relevant-item-never-served")
                             } else if f12 {
                                 Some("slg:trivial-answer-green-cut-order")
+                            } else if solver_name(&choice) == "slg" && ((a == "No possible solution" && b != "No possible solution" && orig_stale(g)) || (b == "No possible solution" && a != "No possible solution" && crate::common::fresh_slg_stale(&l2, &peeled))) {
+                                // F11: the two programs list items in different orders, and one of the two searches lost the answer
+                                Some("slg:stale-delayed-answer-table")
+                            } else if solver_name(&choice) == "slg" && (crate::common::nonlinear_definite(a) || crate::common::nonlinear_definite(&b)) {
+                                // F20: the logged program lists items in another order, and whether the invalidating answer
+                                // arrives before the guidance became non-linear depends on that order
+                                Some("slg:may-invalidate-nonlinear-guidance")
                             } else {
                                 None
                             };
